@@ -281,7 +281,17 @@ func TestC46(t *testing.T) {
 		"observed after every step: timer exists/scheduled, backoff value, Connect calls with live/cancelled context; " +
 		"non-trivial = contains a timer expiry and (a stop with work still pending, or a connect/disconnect while a dial is parked); " +
 		"service level: real PeeringService scenarios with real goroutines judged by a Go oracle")
-	cs := vh.NewCases(e, "From V Require Import model.M_C46.\nOpen Scope Z_scope.", "case", "check_case", 200)
+	cs := vh.NewCases(e, "From V Require Import model.M_C46.\nOpen Scope Z_scope.", "tcase", "check_tcase", 200)
+	sk, err := skeletons()
+	if err != nil {
+		t.Fatalf("cannot read the handler methods: %v", err)
+	}
+	for _, name := range []string{"stop", "stopIfConnected", "startIfDisconnected", "reconnect"} {
+		q, _ := vh.Str(sk[name])
+		cs.Add(vh.App("TSkel", "\""+name+"\"%string", q+"%string"), map[string]any{"kind": "atomic-section skeleton", "method": name, "skeleton": sk[name]})
+		st.Case("skel-"+name, false)
+		st.Count("skeleton")
+	}
 
 	corpus := [][]string{
 		{"stop", "runstart"},                                                                // C46-1: deferred start after stop
@@ -330,7 +340,7 @@ func TestC46(t *testing.T) {
 			}
 		}
 		r.finish()
-		term := fmt.Sprintf("{| c_conn0 := %s; c_events := %s; c_obs := %s |}", vh.Bool(conn0), vh.List(r.events), vh.List(r.obs))
+		term := fmt.Sprintf("(TRun {| c_conn0 := %s; c_events := %s; c_obs := %s |})", vh.Bool(conn0), vh.List(r.events), vh.List(r.obs))
 		rp := map[string]any{"initially_connected": conn0, "steps": strings.Join(r.desc, " ")}
 		cs.Add(term, rp)
 		st.Case(strings.Join(r.desc, " "), hasFire && (stopPending || midDial))
